@@ -71,8 +71,14 @@ class Driver:
         self.ch = MultiUserChannelMatrix()
         self.ch.set_channel_seed(seed + 7)
         self.ch.randomize(N, N, K)
+        # the alignment conditions do not depend on the overall channel gain: every third object works on a channel with
+        # a strong common path loss (all gains ~1e-7), noise scaled along
+        self.scale = 1.0
+        if seed % 3 == 1:
+            self.scale = 1e-7
+            self.ch.set_pathloss(np.full((K, K), self.scale ** 2))
         if alg in ("MMSE", "MaxSINR"):
-            self.ch.noise_var = 0.01
+            self.ch.noise_var = 0.01 * self.scale ** 2
         self.s = solver_class(alg)(self.ch)
         if alg != "ClosedForm":
             self.s.max_iterations = 40
@@ -94,7 +100,16 @@ class Driver:
             p = P_of(a[0], K)
             # Ns handed over as an array that the caller changes afterwards: the solver must not be affected
             ns_arg = np.ones(K, dtype=int) * self.Ns if self.rs.rand() < 0.5 else self.Ns
-            s.solve(ns_arg) if p is None else s.solve(ns_arg, p)
+            prev_mode = None
+            if self.alg != "ClosedForm" and self.F is not None and self.F[0].shape[1] == self.Ns and self.rs.rand() < 0.4:
+                # continue from the precoders the object holds ('fix' initialisation), possibly with another power
+                prev_mode = s.initialize_with
+                s.initialize_with = "fix"
+            try:
+                s.solve(ns_arg) if p is None else s.solve(ns_arg, p)
+            finally:
+                if prev_mode is not None:
+                    s.initialize_with = prev_mode
             if isinstance(ns_arg, np.ndarray):
                 ns_arg[:] = 7
             self.pkind = a[0]
@@ -166,6 +181,8 @@ class Driver:
             return ("error", f"rejected call {a[0]} was accepted")
         if op == "NewChannel":
             self.ch.randomize(self.N, self.N, K)
+            if self.scale != 1.0:
+                self.ch.set_pathloss(np.full((K, K), self.scale ** 2))
             self.F = None
             self.WH = None
             self.fullF = None
@@ -267,7 +284,7 @@ def check_state(drv, e, probe):
         for k in range(K):
             for l in range(K):
                 if k != l:
-                    leak = np.linalg.norm(np.asarray(s.W_H[k]).dot(drv.ch.get_Hkl(k, l)).dot(s.F[l]))
+                    leak = np.linalg.norm(np.asarray(s.W_H[k]).dot(drv.ch.get_Hkl(k, l)).dot(s.F[l])) / drv.scale
                     if leak > 1e-7:
                         bad.append(f"closed-form solution leaks {leak:.2e} from user {l} into user {k}")
     if "SolvedShapes" in req:
@@ -356,8 +373,10 @@ def multistream_case(job):
     s = solver_class(alg)(ch)
     if alg != "ClosedForm":
         s.max_iterations = 30
+    powers = 1.5 if seed % 2 == 0 else np.array([1.5, 1.5, 1.5]) * np.array([1.0, 1e-9, 1.0])[np.roll(np.arange(3), seed % 3)]
+    pw = np.ones(3) * powers
     try:
-        s.solve(2, 1.5)
+        s.solve(2, powers)
     except AssertionError as ex:
         return f"{alg}.solve(Ns=2) stopped on an assertion: {ex!r}", ("MinLeakMultiStreamAsserts" if alg == "MinLeakage" else None)
     except Exception as ex:
@@ -369,12 +388,17 @@ def multistream_case(job):
             bad.append(f"F[{k}] shape {Fk.shape} vs Ns {s.Ns[k]}")
         if alg != "MMSE" and abs(np.linalg.norm(Fk, "fro") - 1) > 1e-6:
             bad.append(f"F[{k}] norm {np.linalg.norm(Fk, 'fro'):.4f}")
-        pw = np.linalg.norm(np.asarray(s.full_F[k]), "fro") ** 2
-        if pw > 1.5 * (1 + 1e-6):
-            bad.append(f"user {k} power {pw:.4f} > 1.5")
-        m = np.asarray(s.full_W_H[k]).dot(ch.get_Hkl(k, k)).dot(s.full_F[k])
-        if not np.allclose(m, np.eye(m.shape[0]), atol=1e-6):
-            bad.append(f"own channel of user {k} is not turned into the identity")
+        pwk = np.linalg.norm(np.asarray(s.full_F[k]), "fro") ** 2
+        if pwk > pw[k] * (1 + 1e-6):
+            bad.append(f"user {k} power {pwk:.4g} > {pw[k]:.4g}")
+        if np.asarray(s.W_H[k]).shape != (int(s.Ns[k]), 4):
+            bad.append(f"W_H[{k}] shape {np.asarray(s.W_H[k]).shape} vs Ns {s.Ns[k]}")
+        try:
+            m = np.asarray(s.full_W_H[k]).dot(ch.get_Hkl(k, k)).dot(s.full_F[k])
+            if not np.allclose(m, np.eye(m.shape[0]), atol=1e-5):
+                bad.append(f"own channel of user {k} is not turned into the identity")
+        except Exception as ex:
+            bad.append(f"full_W_H of user {k} cannot be evaluated: {type(ex).__name__}: {ex}")
     return ("; ".join(bad) if bad else None), None
 
 
@@ -440,7 +464,7 @@ def run(ctx):
         if d:
             ctx.violation(d, {"kind": "leak", "job": list(job), "costs": costs})
     # solvers complete for several streams per user
-    jobs = [(alg, ctx.seed * 31 + i) for alg in ALGS for i in range(6 if thorough else 2)]
+    jobs = [(alg, ctx.seed * 31 + i) for alg in ALGS for i in range(12 if thorough else 6)]
     for job, (d, fid) in zip(jobs, pool_map(multistream_case, jobs)):
         ctx.ok(("multistream",) + job)
         if d:
